@@ -9,7 +9,10 @@ FAMILY = ('ls', 'ldrex', 'strex')
 RULE = ('case = (word from one reference row of an LDR/STR-family encoding incl. B/H/SB/SH/D, literal, register-offset with '
         'every shift, T-variants, exclusives; all P/U/W), random valid state with address-like register values (next to 0, '
         'next to 2^32 where a RAM device ends, device boundaries, alignment 0..3), CPSR.E random, SCTLR.A/U random on '
-        'ARMv6, ARMv7 with U=1, MPU/MMU off; every register, status bit and memory byte compared; non-trivial = memory '
+        'ARMv6, ARMv7 with U=1, MPU/MMU off; for a third of the cases the first data access is moved onto a boundary (last '
+        'words of the address space, end of a RAM device, address 0) by shifting the base register or - for PC-relative '
+        'forms - the placement of the instruction; instruction placement also at halfword-aligned Thumb addresses and at the '
+        'edges of the address space; every register, status bit and memory byte compared; non-trivial = memory '
         'or a register changed; distinct = (row, IT position, configuration)')
 ASSUMPTIONS = ['vf/ref/mem.py + sem_mem.py transcribe MemA/MemU and the A8 load/store pseudocode',
                'exclusive monitors never grant (a permitted implementation): STREX status 1, no store',
@@ -39,7 +42,7 @@ def plan(tier, seed):
 def run_shard(spec):
     from vf import scen
     return L.run_rows(ID, spec, FAMILY, ctxs=CTXS, regs_fn=lambda rng: [scen.reg_value(rng) for _ in range(15)],
-                      prep_kw=prep, after=after)
+                      prep_kw=prep, after=after, solve_addr=0.35)
 
 
 def replay(data):
